@@ -15,10 +15,10 @@ SPEC = dict(
          "the full alphabet incl. library-generated ids, unconfigured client, stream management off, connected loopback socket; "
          "every line compares the completions (request number, how, delivered type and sender) and the set of pending ids between "
          "the real client and the Lean model. (B) QXmppMamManager::retrieveMessages with a dummy QXmppE2eeExtension (instant / deferred "
-         "decryption) or none: exhaustive to depth 5 / 6 over {start, matching/foreign result message plain/encrypted, <fin/> result, "
-         "error or non-resumable close, decryption report} x 4 configurations plus random; compares finish events with the Lean "
-         "machine. (C) 31 request APIs of the client and bundled managers x {empty result, error, unexpected payload, silence, reply "
-         "from a stranger} + duplicate reply + non-resumable session end: completions counted (oracle only). A sequence is "
+         "decryption) or none: exhaustive to depth 4 over {start, matching/foreign result message plain/encrypted, <fin/> result, "
+         "error or non-resumable close, decryption report 0/1} and to depth 5 / 6 after an initial start, x 4 configurations, plus random; compares finish events with the Lean "
+         "machine. (C) 30 request APIs of the client and bundled managers x {empty result, error, unexpected payload, silence, reply "
+         "from a stranger} + duplicate reply + the same call a second time + non-resumable session end: completions counted (oracle only). A sequence is "
          "non-trivial when it yields >= 2 distinct observations.",
     trusted_base=[
         "Lean 4.33.0 kernel; axioms per theorem listed under coverage.theorems (subset of propext, Classical.choice, Quot.sound)",
@@ -46,8 +46,8 @@ SPEC = dict(
                "iq of type result/error with the request's id whose sender is absent or equals the recorded addressee (which is the "
                "'to' asked or the own bare JID); any other stanza is a no-op; non-resumable session end / destruction empties the table "
                "and completes everything; resumable ends keep everything; any continuation containing a matching reply, send failure "
-               "or non-resumable end completes a pending request. MAM machine: at most once always, exactly once unless e2ee + empty "
-               "page (defect theorem with witness, reproduced on the real code), exactly once with the fix.",
+               "or non-resumable end completes a pending request. MAM machine: finished at most once always, and exactly once (state released) for every "
+               "history once the IQ has completed and all decryption jobs have reported, with or without e2ee, empty page included.",
     level_note="Proved about the hand-written models; model-to-code tie is differential (exhaustive to a depth, sampled beyond). "
                "Continuation chaining and the other managers are checked by direct counting on the implementation only.",
     design_ref="5.7",
